@@ -144,10 +144,10 @@ CHECKS['C01'] = {
     'level': 'proof',
     'explanation': 'sem_column / sem_row are written from the property statement over an abstract match result; the extracted code is proved equal to them, loop invariants spliced by ordinal.',
     'trusted': COMMON_TRUST + ['regex crate semantics behind stand-ins', 'ValueType::parse, str::trim, chrono NaiveDate/NaiveTime construction as uninterpreted functions'],
-    'unproved': ['timestamp month-name branch', 'parse_create_table / parser_tree_converter (definition syntax)', 'regex crate (matching)'],
+    'unproved': ['timestamp month-name branch', 'parser_tree_converter::create_create_table_statement (ParserColumnDefinition -> ColumnDefinition)', 'regex crate (matching)'],
 }
 CHECKS['C02'] = {
-    'verus_units': ['extract'],
+    'verus_units': ['extract', 'parser'],
     'clause_prefixes': ['c02'],
     'technique': 'contract-based deductive verification (Verus): JsonAccess::get_value (recursive, with decreases), the Json arm of ColumnParsing::extract and the scalar arms of ValueType::convert_from_json extracted from /repo against json_walk / sem_from_json',
     'claim': 'Proof for all paths and JSON trees that get_value returns exactly the value addressed by following fields and array indexes (None as soon as a step is absent), and that a JSON column is that value converted without coercion (INT only from as_i64, REAL from as_f64, TEXT only from strings, BOOLEAN only from booleans, CONVERT = parse of a JSON string as the declared type, wrong type = NULL, absent path = DEFAULT/NULL). Termination of the path walk is proved.',
@@ -155,7 +155,7 @@ CHECKS['C02'] = {
     'level': 'proof',
     'explanation': 'json_walk is the recursive specification of the path; the extracted get_value is proved equal to it with decreases self.',
     'trusted': COMMON_TRUST + ['serde_json::Value accessors as specified stand-ins'],
-    'unproved': ['ValueType::convert_from_json Array arm', 'JsonAccess::from_linear', 'serde_json::from_str'],
+    'unproved': ['ValueType::convert_from_json Array arm', 'serde_json::from_str'],
 }
 
 CHECKS['C13'] = {
@@ -173,12 +173,12 @@ CHECKS['C14'] = {
     'verus_units': ['parser', 'tokenizer', 'converter'],
     'clause_prefixes': ['c14'],
     'technique': 'contract-based deductive verification (Verus) of tokenize (with its local TokenizerState), TokenLocation::extract_near and the parser\'s token cursor (Parser::new/next/current/current_location/create_error/expect_token/expect_and_consume_token, ParserError::new) extracted from /repo',
-    'claim': 'Proof for every text that tokenize cannot panic, that the line/column it keeps are the position of the consumed prefix, that every token and every tokenizer error is located inside the text (the position of some offset 0..=len) and that the token vector ends with Token::End; proof that TokenLocation::extract_near cannot panic for any location and text (every word range lies inside the line, no index underflow); proof that parse / parse_select / parse_multiple_create_table (a statement is accepted only if every token up to End was consumed; every clause loop keeps the cursor on a token) and the operand-level functions (parse_primary_expression, parse_identifier_expression, parse_list, parse_arguments, consume_identifier / consume_string / consume_int, expect_and_consume_operator) keep the cursor on a token and fail with a located error instead of panicking; proof (cursor kernel) that once the first next() succeeded the parser cursor stays inside the token vector, next() at the end is an error and not a step, current()/current_location() never index out of bounds and every error created carries the location of a real token. "Any text yields a statement or a located error" for the recursive-descent grammar functions and the tree converter is NOT decided.',
+    'claim': 'Proof for every text that tokenize cannot panic, that the line/column it keeps are the position of the consumed prefix, that every token and every tokenizer error is located inside the text (the position of some offset 0..=len) and that the token vector ends with Token::End; proof that TokenLocation::extract_near cannot panic for any location and text (every word range lies inside the line, no index underflow); proof that parse / parse_select / parse_multiple_create_table / parse_create_table / parse_define_column / parse_type (a statement is accepted only if every token up to End was consumed; every clause loop keeps the cursor on a token) and the operand-level functions (parse_primary_expression, parse_identifier_expression, parse_list, parse_arguments, consume_identifier / consume_string / consume_int, expect_and_consume_operator) keep the cursor on a token and fail with a located error instead of panicking; proof (cursor kernel) that once the first next() succeeded the parser cursor stays inside the token vector, next() at the end is an error and not a step, current()/current_location() never index out of bounds and every error created carries the location of a real token. "Any text yields a statement or a located error" for the recursive-descent grammar functions and the tree converter is NOT decided.',
     'note': 'Trusted: Peekable<Chars> as a cursor over the character sequence (VChars), Unicode class predicates uninterpreted (a line break is not alphanumeric), str::lines().nth / chars().collect / String::from_iter(&v[a..b]) / format! as stand-ins with the slice-range precondition, Vec length <= usize::MAX. Termination of the tokenizer loops is not proved. Unproved: all parse_* functions except parse_unary_operator, parser_tree_converter (transform_call_aggregate), TableDefinition::new; the panics found there (extract_near underflow, empty JSON path, string_agg arity) were repaired and are demonstrated by replays.',
     'level': 'proof',
     'explanation': 'Tokenizer: loop invariant at_offset(state, text, n) (rest of the iterator = text.skip(n), line = number of line breaks and column = characters after the last line break of text.take(n)); next_char and add carry it in universally quantified postconditions. Cursor safety is the invariant 0 <= index < tokens.len() established by next() and required by every accessor.',
     'trusted': COMMON_TRUST,
-    'unproved': ['Parser::parse_create_table / parse_define_column / parse_type / parse_regex_mode (CREATE TABLE grammar)', 'parser_tree_converter except transform_join', 'TableDefinition::new'],
+    'unproved': ['Parser::parse_regex_mode (match guards: Verus loses the frame)', 'parser_tree_converter except transform_join', 'TableDefinition::new'],
 }
 
 CHECKS['C12'] = {
